@@ -146,6 +146,7 @@ class World:
         self.devs = {}
         self.groups = {}
         self.rm = None
+        self.extra = []        # assets created by the script during the run
 
 
 class ScriptAction:
@@ -187,6 +188,16 @@ class ScriptAction:
                 if new not in ups:
                     dev.set_upstream(ups + [new])
                     out = 'added'
+            elif kind == 'create_asset':
+                # an asset with a value of its own created while the simulation is running
+                from simprocesd.model.factory_floor import Maintainer, PartHandler
+                n = len(w.extra)
+                if op.get('what') == 'handler':
+                    a = PartHandler(name=f'late_handler_{n}', value=op['value'])
+                else:
+                    a = Maintainer(name=f'late_maintainer_{n}', value=op['value'])
+                w.extra.append(a)
+                out = a.name
             else:
                 raise ValueError(kind)
         finally:
